@@ -32,7 +32,7 @@ ASSUMPTIONS = [
     "difference there proves inequality, agreement does not prove equality and is then not used to demand ==)",
 ]
 MIN_MONITORS = {"pair": 20000, "eq-implies-hash": 20000, "eq-implies-same": 3000, "equal-by-construction": 6000,
-                "accessor-mutation": 15000, "pickle": 6000, "bls-pair": 4500, "bls-equal-sets": 1500, "expr-pair": 4000}
+                "accessor-mutation": 15000, "pickle": 6000, "bls-pair": 4500, "bls-equal-sets": 1500, "expr-pair": 4000, "unchanged-after-pickling": 350}
 THOROUGH_MIN_SCALE = 8
 
 
@@ -499,6 +499,58 @@ def service_case(ctx, pydsdl, rng, workdir):
     ctx.case(("svc", txt), True, classes=["service"])
 
 
+def defs_case(ctx, pydsdl, rng, workdir):
+    """
+    Definitions with constants (booleans of both values, integers, floats), comments and services, read twice through the
+    front door: equal by construction; pickling one of them must neither change the copy nor any *other* live object.
+    """
+    from pv.gen import defs as GD
+    from pv.props.c03 import fix_docs
+
+    deps = GT.gen_universe(rng, n_defs=rng.choice([0, 1]), small=True, text_ok=True, max_fields=3)
+    desc = GD.gen_definition(rng, deps)
+    fix_docs(desc, rng)
+    text, _ = GD.render(desc, GD.Policy(random.Random(rng.random()), plain=True))
+    text = "bool PV_TRUE = true\nbool PV_FALSE = false\nuint8 PV_SEVEN = 7\n" + text if not text.lstrip().startswith("#") else text
+    case = {"definition": text, "deps": deps}
+    objs = []
+    try:
+        for sub in ("one", "two"):
+            base = workdir / "defs" / sub
+            GT.write_universe(deps, base)
+            p = base / GT.ROOT / "Main.1.0.dsdl"
+            p.parent.mkdir(parents=True, exist_ok=True)
+            p.write_text(text, encoding="utf-8")
+            objs.append([t for t in pydsdl.read_namespace(base / GT.ROOT, []) if t.short_name == "Main"][0])
+    except pydsdl.InvalidDefinitionError:
+        return
+    finally:
+        shutil.rmtree(workdir / "defs", ignore_errors=True)
+    a, b = objs
+    fa, fb = fingerprint(a, pydsdl), fingerprint(b, pydsdl)
+    ctx.mon("equal-by-construction")
+    if pair_contract(ctx, a, b, "definition read twice", case) is not True:
+        ctx.violation("C18/equal-descriptions-unequal", "the same definition read from two copies gives unequal objects", case)
+    for c1, c2 in zip(a.constants if not isinstance(a, pydsdl.ServiceType) else a.request_type.constants,
+                      b.constants if not isinstance(b, pydsdl.ServiceType) else b.request_type.constants):
+        pair_contract(ctx, c1, c2, "constant %s" % c1, case)
+        pair_contract(ctx, c1.value, c2.value, "constant value %s" % c1.value, case)
+    pickle_contract(ctx, a, pydsdl, case)
+    for c in (a.constants if not isinstance(a, pydsdl.ServiceType) else a.request_type.constants)[:4]:
+        pickle_contract(ctx, c, pydsdl, case)
+        pickle_contract(ctx, c.value, pydsdl, case)
+    # immutability of everything else: neither the pickled object nor its independently read twin may have changed
+    ctx.mon("unchanged-after-pickling")
+    if fingerprint(a, pydsdl) != fa:
+        ctx.violation("C18/object-changed-by-pickling", "an object changed while it was pickled / unpickled", case)
+    if fingerprint(b, pydsdl) != fb:
+        ctx.violation("C18/other-object-changed-by-pickling", "pickling / unpickling one object changed an unrelated live object: %r -> %r" % (
+            [x for x in fb if x not in fingerprint(b, pydsdl)][:3], [x for x in fingerprint(b, pydsdl) if x not in fb][:3]), case)
+    if str(pydsdl.Boolean(False)) != "false" or str(pydsdl.Boolean(True)) != "true" or bool(pydsdl.Boolean(False)) or pydsdl.Rational(7).native_value != 7:
+        ctx.violation("C18/other-object-changed-by-pickling", "freshly constructed expression values are wrong after a pickle round trip", case)
+    ctx.case(("defs", text), True, classes=["definition-with-constants"])
+
+
 def run_shard(ctx):
     pydsdl = import_pydsdl()
     rng = ctx.rng
@@ -513,6 +565,8 @@ def run_shard(ctx):
                 type_case(ctx, pydsdl, u, seed, text_first, ctx.tmp)
                 if i % 4 == 0:
                     service_case(ctx, pydsdl, rng, ctx.tmp)
+                if i % 2 == 0:
+                    defs_case(ctx, pydsdl, rng, ctx.tmp)
         except CaseTimeout:
             ctx.inconclusive_case("watchdog", {"universe": u})
         except (pydsdl.Error, AssertionError, TypeError, ValueError, AttributeError) as ex:
